@@ -345,6 +345,47 @@ def _append_manager(prop, res, repo):
         res.ok(rule, {"site": mp.where, "paths": n, "order": "extend -> self._tasks() on every path that appends"}, nontrivial="CandleManager.append")
     elif n == 0:
         res.fail(rule, finding(prop, rule, mp, mp.node, "CandleManager.append no longer extends the list and runs the tasks", construct="CandleManager.append: no appending path"))
+    # the accepted encodings are Candle, dict and list: materialising any other iterable here (list(candles) / tuple(candles)) accepts
+    # one-shot iterators, which Hexital.append hands to several managers in turn (the first one drains them)
+    p0 = next((p for p in mp.params if p != "self"), "candles")
+    for c in calls_in(mp.node):
+        if isinstance(c.func, ast.Name) and c.func.id in ("list", "tuple", "iter", "deque") and len(c.args) == 1 and isinstance(c.args[0], ast.Name) and c.args[0].id == p0:
+            neg = [n for n in ast.walk(mp.node) if isinstance(n, ast.If) and any(c is x for b in n.body for x in ast.walk(b)) and ast.unparse(n.test).replace(" ", "") in (f"notisinstance({p0},list)",)]
+            any_list_test = any(isinstance(n, ast.Call) and call_name(n) == "isinstance" and len(n.args) == 2 and ast.unparse(n.args[0]) == p0 and "list" in ast.unparse(n.args[1]) for n in ast.walk(mp.node))
+            rebinds = any(isinstance(n, ast.Assign) and n.value is c and any(isinstance(t, ast.Name) and t.id == p0 for t in n.targets) for n in ast.walk(mp.node))
+            if neg or not any_list_test or (rebinds and any("Iterable" in ast.unparse(n.test) or "not isinstance" in ast.unparse(n.test) for n in ast.walk(mp.node) if isinstance(n, ast.If) and any(c is x for b in n.body for x in ast.walk(b)))):
+                res.fail(rule, finding(prop, rule, mp, c, "CandleManager.append materialises an arbitrary iterable: a generator / iterator given to Hexital.append is drained by the first manager and every other manager gets nothing, so members on other timeframes silently stop receiving candles"))
+    # everything that was given is stored: no filtering between the parsed input and self.candles.extend(...)
+    defs_ = {}
+    for n in ast.walk(mp.node):
+        if isinstance(n, ast.Assign):
+            for t in n.targets:
+                if isinstance(t, ast.Name):
+                    defs_.setdefault(t.id, []).append(n.value)
+    for c in calls_in(mp.node):
+        if call_target(c) == "self.candles.extend" and c.args:
+            seen_, todo_ = set(), [c.args[0]]
+            while todo_:
+                e = todo_.pop()
+                for n in ast.walk(e):
+                    if isinstance(n, (ast.ListComp, ast.GeneratorExp, ast.SetComp)) and any(g.ifs for g in n.generators) or (isinstance(n, ast.Call) and call_name(n) in ("filter", "takewhile", "dropwhile", "islice")) or (isinstance(n, ast.Subscript) and isinstance(n.slice, ast.Slice)):
+                        res.fail(rule, finding(prop, rule, mp, n, "CandleManager.append stores only part of the given candles (a filter between the parsed input and self.candles.extend): candles leave a manager only through trim_candles, after collapsing and conversion have seen them"))
+                        todo_ = []
+                        break
+                    if isinstance(n, ast.Name) and n.id in defs_ and n.id not in seen_:
+                        seen_.add(n.id)
+                        todo_.extend(defs_[n.id])
+    # append rejects malformed input (TypeError) only: a check that depends on what the manager already holds makes the outcome depend
+    # on how the stream was chunked (the constructor path does not run it)
+    residual = getattr(repo, "residual", {}) or {}
+    scope = [mp] + [f for f in repo.all_functions() if f.name in residual and any((isinstance(n, ast.Name) and n.id == f.name) or (isinstance(n, ast.Attribute) and n.attr == f.name) for n in ast.walk(mp.node))]
+    for f in scope:
+        for n in ast.walk(f.node):
+            if isinstance(n, ast.Raise) and n.exc is not None:
+                exc = n.exc.func if isinstance(n.exc, ast.Call) else n.exc
+                nm = ast.unparse(exc).split(".")[-1]
+                if nm != "TypeError":
+                    res.fail(rule, finding(prop, rule, f, n, f"CandleManager.append{'' if f is mp else ' (through ' + f.qualname + ')'} raises {nm}: input is rejected depending on the candles already held / on its position in the chunk, so the same stream gives different results (or fails) for different append schedules; append only rejects malformed rows (TypeError)"))
     init = repo.method("hexital.core.candle_manager", "CandleManager", "__init__")
     ic = [call_target(c) for c in calls_in(init.node) if call_target(c).startswith("self.")]
     if ic == ["self._tasks"]:
